@@ -72,7 +72,6 @@ for _pid, _title, _what in [
   ("C10", "OpenAPI request labels", "every request of generate_all is taken apart (applied parameter / body leaves), each carried raw value judged by jsonschema against its parameter / body schema, required parts checked, method and placeholder-free path checked, and compared with the label; the request graph is an instance of the C03 theorem (its well-formedness is checked by the model's wfb on the dumped node table)"),
   ("C13", "history independence", "random histories of parse / normalize / generate_paths / execute calls followed by a probe, compared with the probe run first in a fresh interpreter (same hash seed and random seed); inputs deep-compared before / after; repeated execute compared; Coq (core): C13_history_free -- generate_paths yields the same entries, labels and outcome whatever distance annotations earlier calls left on the graph (agree-on-table congruence through all five traversals), C13_refuted_pinned keeps the defect of the pinned code"),
   ("C17", "own exception for unsupported constructs", "supported inputs with one legal out-of-dialect construct planted (45 JSON constructs, 43 regex patterns, 23 XSD insertions, 15 grammar dictionaries, 17 OpenAPI variants); the outcome must be a graph or an exception derived from FencesException; Coq: error-class lemmas of the models"),
-  ("C08", "grammar samples derivable", "chart-based derivability of every sample, occurrence-wise use of every terminal and range end"),
 ]:
     CLAIMED[_pid] = dict(cat="other", tech="model-implementation correspondence of executable Coq models + independent oracle; Coq theorems in progress",
         text="Executable Coq models (coq/Normalize.v, coq/JsonGen.v, coq/Grammar.v) of the code path of this property are tied to the implementation on random inputs of the "
@@ -100,6 +99,15 @@ CLAIMED["C16"] = dict(cat="proof", tech="Coq proof that normalize() returns a ne
         "including recursion through then / else / not and references next to sibling keywords; the two families of non-termination found this way were repaired (e322fa7, 3e0af93).",
    note=TB + "Modelled: coq/Normalize.v (hand-written model of normalize.py + json_pointer.py); sha1 names modelled as table positions; sets insertion-ordered in the correspondence run.",
    ref="5/C16")
+
+CLAIMED["C08"] = dict(cat="proof", tech="Coq proof of derivability for every execution of the converted grammar graph (builder shapes, semantic statement of resolve(), C15_sem for optimize) + model-implementation correspondence on random grammars + derivability / coverage oracle",
+   text="C08_language: for every grammar whose ranges and repetition bounds are in order (any number of rules, left- / right- / self-recursion, forward references, any nesting) and every "
+        "complete execution of the graph returned by the model of convert(), generated path or not, the string produced is derivable from the start symbol (inductive `derives`). "
+        "C08_resolve_sem: resolve() leaves kinds unchanged and replaces, on every node of a successor-closed visited set containing the root, each successor by the node it "
+        "dereferences to. Labels: every leaf the converter creates is a valid leaf, so every entry is labelled valid once the graph is well-formed (certified per graph). "
+        "The coverage half (every terminal occurrence, both range ends) follows from C05 on the certified graph and is checked occurrence-wise by the oracle; repetition counts: C08_rep_bounds.",
+   note=TB + "Modelled: coq/Grammar.v, coq/GraphOps.v (resolve, optimize). The grammar enters the model as an AST (dict order = list order); the specification `derives` is the usual "
+        "inductive one and is cross-checked by an independent chart-based recogniser on every sample.", ref="5/C08")
 
 NOT_YET = {}
 
